@@ -39,6 +39,7 @@ type Opts struct {
 	NoStateHandler     bool
 	AsyncErrHandler    bool
 	TraceTraffic       bool // per-frame wire tracing on (a logging option must not change behaviour)
+	DecodeErrHandlers  bool // one decode-error handler per data handler, recording into Deliveries like them
 }
 
 // Delivery is one data-handler invocation.
@@ -50,6 +51,8 @@ type Delivery struct {
 	Seq     int
 	State   hsms.ConnState
 	DecErr  string
+	// Diverted: received by a decode-error handler, not a data handler
+	Diverted bool
 }
 
 // StateChange is one state-change notification.
@@ -205,6 +208,19 @@ func New(w *core.World, o Opts) *Rig {
 				r.OnDeliver(m, ep)
 			}
 		})
+	}
+	if o.DecodeErrHandlers {
+		for i := 0; i < nh; i++ {
+			i := i
+			c.AddDecodeErrorHandler(func(m *hsms.DataMessage, err error, ep hsms.SECS2Endpoint) {
+				r.seq++
+				d := Delivery{At: w.Now(), Handler: i, Hdr: m.HeaderBytes(), Body: m.AppendBodyTo(nil), Seq: r.seq, Diverted: true}
+				if err != nil {
+					d.DecErr = err.Error()
+				}
+				r.Deliveries = append(r.Deliveries, d)
+			})
+		}
 	}
 	if !o.NoStateHandler {
 		c.AddConnStateChangeHandler(func(prev, next hsms.ConnState) {
